@@ -150,6 +150,9 @@ func (s *seqRunner) apply(op string) OpResult {
 			writes = !present
 		case "cipw":
 			writes = present
+		case "load":
+			// a load of an absent (or expired) key that yields a value installs it: a creation
+			writes = !present && len(f) > 2 && f[2] == "val" && len(loads) > 0
 		}
 		if writes {
 			want := map[string]string{"creating": "create", "writing": "write", "accessing": "access", "custom": "create"}[s.cfg.Expiry]
@@ -184,6 +187,8 @@ func (s *seqRunner) apply(op string) OpResult {
 			writes = !present
 		case "cipw":
 			writes = present
+		case "load":
+			writes = !present && len(f) > 2 && f[2] == "val" && len(loads) > 0
 		}
 		if writes {
 			want := map[string]string{"creating": "rcreate", "writing": "rwrite"}[s.cfg.Refresh]
@@ -282,6 +287,9 @@ func (s *seqRunner) apply(op string) OpResult {
 			mismatch("nil channel = %v, expected %v", res.NilChan, ex.nilChan)
 		}
 	}
+	// 1b. the fields of every Entry the operation exposed: the result of GetEntry/GetEntryQuietly, the entries of an
+	// ordered iteration, and the entry handed to each calculator hook
+	s.checkEntries(op, name, res, hooks)
 	// 2. loader invocations
 	if ex.checkLoads && !loaderPanicked {
 		var got []string
@@ -638,7 +646,7 @@ func (s *seqRunner) apply(op string) OpResult {
 	}
 	// 5d. no in-flight load record survives an operation that has returned (same-goroutine executor) — C08
 	if !s.deferred {
-		if st := r.C.VerifStatus(); st.InFlightCalls != 0 {
+		if st := r.C.VerifStatus(); st.InFlightCalls > 0 {
 			s.fail("inflight-left", name, "after op %q returned, %d in-flight load records remain: a later Get/Refresh of such a key would wait forever", op, st.InFlightCalls)
 		}
 	}
@@ -822,6 +830,95 @@ func (s *seqRunner) stateKey() string {
 }
 
 func (s *seqRunner) close() { s.r.Close() }
+
+// checkEntries: an Entry is a snapshot of key, value, weight, both deadlines and the time it was taken.
+func (s *seqRunner) checkEntries(op, name string, res OpResult, hooks []CalcCall) {
+	m := s.m
+	timeBased := s.cfg.Expiry != "" || s.cfg.Refresh != ""
+	snapWant := int64(0)
+	if timeBased {
+		snapWant = m.now
+	}
+	f := strings.Fields(op)
+	check := func(where string, e otter.Entry[int, int], key int, deadlines bool) {
+		me, live := m.get(key)
+		if !live || me.val != e.Value {
+			return // presence and values are judged elsewhere
+		}
+		if e.Key != key {
+			s.fail("entry-mismatch", where, "op %q: entry of key %d carries key %d", op, key, e.Key)
+		}
+		if w := valWeightCfg(s.cfg, e.Value); e.Weight != w {
+			s.fail("entry-mismatch", where, "op %q: entry %d=%d has weight %d, expected %d", op, key, e.Value, e.Weight, w)
+		}
+		if e.SnapshotAtNano != snapWant {
+			s.fail("entry-mismatch", where, "op %q: entry %d=%d has SnapshotAtNano %d, expected %d", op, key, e.Value, e.SnapshotAtNano, snapWant)
+		}
+		if !deadlines {
+			return
+		}
+		wantExp, wantRef := never, never
+		if s.cfg.Expiry != "" {
+			wantExp = me.exp
+		}
+		if s.cfg.Refresh != "" {
+			wantRef = me.ref
+		}
+		if e.ExpiresAtNano != wantExp {
+			s.fail("entry-mismatch", where, "op %q: entry %d=%d has ExpiresAtNano %d, expected %d (clock %d)", op, key, e.Value, e.ExpiresAtNano, wantExp, m.now)
+		}
+		if e.RefreshableAtNano != wantRef {
+			s.fail("entry-mismatch", where, "op %q: entry %d=%d has RefreshableAtNano %d, expected %d (clock %d)", op, key, e.Value, e.RefreshableAtNano, wantRef, m.now)
+		}
+		if timeBased && s.cfg.Expiry != "" {
+			if got, want := int64(e.ExpiresAfter()), wantExp-m.now; wantExp != never && got != want {
+				s.fail("entry-mismatch", where, "op %q: entry %d=%d reports ExpiresAfter %d, expected %d", op, key, e.Value, got, want)
+			}
+			if e.HasExpired() {
+				s.fail("entry-mismatch", where, "op %q: live entry %d=%d reports HasExpired", op, key, e.Value)
+			}
+		}
+	}
+	switch f[0] {
+	case "gete", "getq":
+		if res.Entry != nil && res.Panic == "" {
+			check(name, *res.Entry, atoi(f[1]), true)
+		}
+	case "coldest", "hottest":
+		if !s.deferred {
+			for _, e := range res.Entries {
+				check(name, e, e.Key, true)
+			}
+		}
+	}
+	for hi, h := range hooks {
+		// the entry handed to a calculator: the key and value the hook is about, the weight of that value, taken now
+		// (its deadlines are the ones being computed and are not judged here)
+		e := h.Entry
+		if e.Key != h.Key {
+			s.fail("entry-mismatch", "calculator", "op %q: hook %s received an entry whose key is %d, expected %d", op, h.Hook, e.Key, h.Key)
+		}
+		if w := valWeightCfg(s.cfg, e.Value); e.Weight != w {
+			s.fail("entry-mismatch", "calculator", "op %q: hook %s received entry %d=%d with weight %d, expected %d", op, h.Hook, e.Key, e.Value, e.Weight, w)
+		}
+		if !s.deferred && e.SnapshotAtNano != snapWant {
+			s.fail("entry-mismatch", "calculator", "op %q: hook %s received an entry with SnapshotAtNano %d, expected %d", op, h.Hook, e.SnapshotAtNano, snapWant)
+		}
+		// a refresh hook is consulted after the expiry of the same write has been decided: the entry it receives carries
+		// the deadline the entry ends up with (judged for the last refresh hook of a key whose value survives the operation)
+		if strings.HasPrefix(h.Hook, "r") && h.Hook != "read" && s.cfg.Expiry != "" && !s.deferred {
+			last := true
+			for _, h2 := range hooks[hi+1:] {
+				if h2.Key == h.Key {
+					last = false
+				}
+			}
+			if ent, ok := s.r.C.GetEntryQuietly(h.Key); last && ok && ent.Value == e.Value && e.ExpiresAtNano != ent.ExpiresAtNano {
+				s.fail("entry-mismatch", "calculator", "op %q: refresh hook %s received entry %d=%d with ExpiresAtNano %d, but the entry expires at %d", op, h.Hook, e.Key, e.Value, e.ExpiresAtNano, ent.ExpiresAtNano)
+			}
+		}
+	}
+}
 
 // trackScale counts which large-state features a scale workload has reached so far.
 func (s *seqRunner) trackScale() {
